@@ -17,7 +17,11 @@ import (
 	"encoding/json"
 	"os"
 	"path/filepath"
+	"reflect"
 	"strconv"
+
+	"github.com/emirpasic/gods/v2/queues/circularbuffer"
+	"github.com/emirpasic/gods/v2/trees/binaryheap"
 
 	"github.com/emirpasic/gods/v2/trees/avltree"
 	"github.com/emirpasic/gods/v2/trees/btree"
@@ -184,4 +188,198 @@ func simMap(j *jobCtx, kind string) {
 		stats = append(stats, e)
 	}
 	extraStats["sim"] = stats
+}
+
+// ---- ring: behaviours of spec/SimRing (capacities 7 and 12) ----
+func ringCanon(q any) any {
+	vals := []int{}
+	v := field(q, "values")
+	for i := 0; i < v.Len(); i++ {
+		vals = append(vals, int(v.Index(i).Int()))
+	}
+	return []any{vals, int(field(q, "start").Int()), int(field(q, "end").Int()), field(q, "full").Bool(), int(field(q, "size").Int())}
+}
+
+type simStepV struct {
+	op    string
+	arg   json.RawMessage
+	canon string
+}
+
+func readSimV(path string) [][]simStepV {
+	f, err := os.Open(path)
+	if err != nil {
+		return nil
+	}
+	defer f.Close()
+	var out [][]simStepV
+	sc := bufio.NewScanner(f)
+	sc.Buffer(make([]byte, 1<<20), 1<<28)
+	for sc.Scan() {
+		var beh [][]json.RawMessage
+		if json.Unmarshal(sc.Bytes(), &beh) != nil {
+			continue
+		}
+		var steps []simStepV
+		for _, s := range beh {
+			if len(s) != 3 {
+				continue
+			}
+			st := simStepV{arg: s[1], canon: normJSON(s[2])}
+			json.Unmarshal(s[0], &st.op)
+			steps = append(steps, st)
+		}
+		out = append(out, steps)
+	}
+	return out
+}
+
+func simRing(j *jobCtx) {
+	dir := os.Getenv("VERIF_SIM")
+	if dir == "" {
+		return
+	}
+	stats, _ := extraStats["sim"].([]Ev)
+	for _, c := range []int{7, 12} {
+		name := "SimRing" + strconv.Itoa(c)
+		behs := readSimV(filepath.Join(dir, name+".ndjson"))
+		if len(behs) == 0 {
+			continue
+		}
+		ncalls, compared, identical, first := 0, 0, 0, ""
+		for _, steps := range behs {
+			var cs []Call
+			for i, st := range steps {
+				var v int
+				json.Unmarshal(st.arg, &v)
+				switch st.op {
+				case "Enqueue":
+					cs = append(cs, Call{Op: "Enqueue", V: v})
+				case "Dequeue":
+					cs = append(cs, Call{Op: "Dequeue"})
+				case "Clear":
+					cs = append(cs, Call{Op: "Clear"})
+				}
+				if i%9 == 4 {
+					cs = append(cs, Call{Op: "Peek"}, Call{Op: "Full"})
+				}
+			}
+			runScript(&queInst{kind: "circularbuffer", cap: c, q: newQue("circularbuffer", c)}, cs)
+			ncalls += len(cs)
+			bad := func() (bad string) { // model state vs code state after every call
+				defer func() {
+					if recover() != nil && bad == "" {
+						bad = "panic while replaying"
+					}
+				}()
+				q := circularbuffer.New[int](c)
+				for i, st := range steps {
+					var v int
+					json.Unmarshal(st.arg, &v)
+					switch st.op {
+					case "Enqueue":
+						q.Enqueue(v)
+					case "Dequeue":
+						q.Dequeue()
+					case "Clear":
+						q.Clear()
+					}
+					b, _ := json.Marshal(ringCanon(q))
+					compared++
+					if string(b) != st.canon {
+						return "step " + strconv.Itoa(i+1) + " " + st.op + ": model " + trunc(st.canon, 120) + " code " + trunc(string(b), 120)
+					}
+				}
+				return ""
+			}()
+			if bad == "" {
+				identical++
+			} else if first == "" {
+				first = bad
+			}
+		}
+		e := Ev{"kind": "circularbuffer", "model": name, "behaviours": len(behs), "calls": ncalls, "states_compared": compared, "behaviours_identical": identical}
+		if first != "" {
+			e["first_difference"] = first
+		}
+		stats = append(stats, e)
+	}
+	extraStats["sim"] = stats
+}
+
+// ---- heap: behaviours of spec/SimHeap (24 items, bulk pushes) ----
+func simHeap(j *jobCtx) {
+	dir := os.Getenv("VERIF_SIM")
+	if dir == "" {
+		return
+	}
+	behs := readSimV(filepath.Join(dir, "SimHeap.ndjson"))
+	if len(behs) == 0 {
+		return
+	}
+	stats, _ := extraStats["sim"].([]Ev)
+	ncalls, compared, identical, first := 0, 0, 0, ""
+	for _, steps := range behs {
+		var cs []Call
+		for i, st := range steps {
+			if st.op == "Pop" {
+				cs = append(cs, Call{Op: "Pop"})
+			} else {
+				var es []PE
+				json.Unmarshal(st.arg, &es)
+				vs := []int{}
+				for _, e := range es {
+					vs = append(vs, 10*e.P+e.ID)
+				}
+				cs = append(cs, Call{Op: "Push", Vs: vs})
+			}
+			if i%9 == 4 {
+				cs = append(cs, Call{Op: "Peek"}, Call{Op: "Values"})
+			}
+		}
+		runScript(newHeapInst("binaryheap", "prio"), cs)
+		ncalls += len(cs)
+		bad := func() (bad string) {
+			defer func() {
+				if recover() != nil && bad == "" {
+					bad = "panic while replaying"
+				}
+			}()
+			h := binaryheap.NewWith[PE](cmpPE("prio"))
+			for i, st := range steps {
+				if st.op == "Pop" {
+					h.Pop()
+				} else {
+					var es []PE
+					json.Unmarshal(st.arg, &es)
+					h.Push(es...)
+				}
+				lst := field(h, "list")
+				for lst.Kind() == reflect.Ptr {
+					lst = lst.Elem()
+				}
+				el := lst.FieldByName("elements")
+				arr := []any{}
+				for k := 0; k < el.Len(); k++ {
+					arr = append(arr, Ev{"p": int(el.Index(k).Field(0).Int()), "id": int(el.Index(k).Field(1).Int())})
+				}
+				b, _ := json.Marshal(arr)
+				compared++
+				if string(b) != st.canon {
+					return "step " + strconv.Itoa(i+1) + " " + st.op + ": model " + trunc(st.canon, 120) + " code " + trunc(string(b), 120)
+				}
+			}
+			return ""
+		}()
+		if bad == "" {
+			identical++
+		} else if first == "" {
+			first = bad
+		}
+	}
+	e := Ev{"kind": "binaryheap", "model": "SimHeap", "behaviours": len(behs), "calls": ncalls, "states_compared": compared, "behaviours_identical": identical}
+	if first != "" {
+		e["first_difference"] = first
+	}
+	extraStats["sim"] = append(stats, e)
 }
